@@ -31,6 +31,17 @@ Alphabets are kept disjoint where an oracle needs it:
              letters A-F/a-f - no keyword, filler word or host stem fits inside
     host stems contain a letter of g-z, so they never occur inside a hex digest
 
+Public API
+    strategies  world() -> pools {fqdn, hosts, ips, macs, keywords};  content(world, max_lines,
+                max_tokens, netstat) / line(world, n) / netstat_line(world, n) -> line dicts;
+                token(world, kinds), ipv4(), mac(), fqdn(), short_name(), other_host(domain),
+                keyword(), secret(), password_part(), gap(kind_a, kind_b);  die(n) / rarely(n) =
+                dice that are not skewed by Hypothesis' preference for the first element
+    pure        render(lines), render_line(line), spans(line), tags_of(text), claimed(kind,
+                rendered, start, end, part), well_formed, left_ok/right_ok (the neighbour rules),
+                ip_relatives(ip), is_loopback(ip), is_ignored_mac(mac), domain_of(fqdn),
+                selftest() (vocabulary constraints the oracles rely on)
+
 Everything random is drawn from Hypothesis strategies (no own RNG)."""
 import re
 import string
